@@ -1,6 +1,7 @@
 """C14 — saving to LatticeJSON and loading back reproduces the lattice
 
 B2: per class constructor parameters vs defining_features regenerated from the live classes (theorem features_cover_ctor).
+B1: convert_segment / parse_segment vs NLat.conv / NLat.parse on random named trees incl. duplicate names (ser_corr.py).
 F : save / json.load / reload of random nested segments with every class and non-default attributes (fals/C14.py).
 """
 from __future__ import annotations
@@ -13,7 +14,7 @@ except ImportError:  # falsifier module not present
 
 META = {
     "level": "proof",
-    "rule": 'B2 table rows: one per element class' + ((" | falsifier: " + F.META.get("rule", "")) if F and hasattr(F, "META") else ""),
+    "rule": 'B2 table rows: one per element class | B1 case = named segment tree (unique or colliding names, depth <= 4)' + ((" | falsifier: " + F.META.get("rule", "")) if F and hasattr(F, "META") else ""),
     "modelled": 'feature lists vs constructor signatures (Features.lean)',
     "gap": 'json, tolist, torch.tensor round trip of values is trusted (falsifier observes it)',
     "assumptions": ((F.META.get("assumptions", []) if F and hasattr(F, "META") else []) + []),
@@ -129,6 +130,8 @@ def file_probes(ctx, n: int) -> None:
 
 
 def run(ctx) -> None:
+    from ser_corr import run_ser_correspondence
+    run_ser_correspondence(ctx, "C14", ctx.n(120, 3000))
     file_probes(ctx, ctx.n(10, 150))
     if F is not None:
         F.run(ctx)
